@@ -306,6 +306,32 @@ def spelling_monitor(ctx):
             ctx.count("spelling_" + ("accepted" if va == "accepted" else "rejected"))
 
 
+EXPECTED = [
+    # (program, accepted?): acceptance = the kind constraints have a solution and every recursion can be cut at a schema
+    ("let a = b;\nlet b = a;\nres / on get -> a;\n", False), ("let a = a;\nres / on get -> <a>;\n", False), ("let a = a | a;\nres / on get -> <a>;\n", False),
+    ("let f x = x;\nlet c = f c;\nres / on get -> {};\n", False), ("let d = rec y y;\nres / on get -> <d>;\n", False),
+    ("let a = { 'n [a] };\nres / on get -> <a>;\n", True), ("let d = rec y { 'k [y] };\nres / on get -> <d>;\n", True),
+    ("let u = /x?{ 'next u };\nres u on get -> <>;\n", False), ("let a = [a];\nres / on get -> <a>;\n", True),
+    ("let o = get -> <o>;\nres / on o;\n", False), ("let c = <c>;\nres / on get -> c;\n", False),
+]
+
+
+def expected_verdicts(ctx):
+    from . import progs
+    res = progs.compile_many([{"mods": {"file:///w/main.oal": t}, "main": "file:///w/main.oal"} for t, _ in EXPECTED])
+    for (t, acc), r in zip(EXPECTED, res):
+        ctx.cov["evaluations"] += 1
+        got = r.get("status") == "ok"
+        if r.get("status") not in ("ok", "error"):
+            ctx.violation("inference or the recursion check does not end normally on this program", {"program": t}, "a verdict", str(r.get("msg"))[:200])
+        elif got != acc:
+            ctx.violation("acceptance does not coincide with solvability: a program whose %s" %
+                          ("recursion has no determined, referential kind is accepted" if got else "kind constraints are solvable is rejected"),
+                          {"program": t}, "accepted" if acc else "rejected", "accepted" if got else str(r.get("msg"))[:120])
+        else:
+            ctx.count("expected_verdicts")
+
+
 def order_monitor(ctx):
     """programs: the verdict of the type-checking phases (accepted, or the kind of error) does not depend on the order of
     the declarations; cyclic and acyclic declaration graphs (one declaration per line), one random permutation each"""
@@ -443,6 +469,7 @@ def check(ctx):
         elif o.split()[0] != b.split()[0] and b.split()[0] in ("ok", "err"):
             ctx.violation("the verdict changes under permutation of equations / renaming of variables / swapping sides",
                           inp, b.split()[0], o)
+    expected_verdicts(ctx)
     order_monitor(ctx)
     spelling_monitor(ctx)
     ctx.cov["rule"] = ("layer L4u: all single equations over 76 tags of depth<=2 on 3 variables; pairs over 14 tags; triples over 7 tags "
